@@ -454,3 +454,36 @@ def cap(x, hi=2_000_000_000):
         return int(min(hi, max(0, x)))
     except (OverflowError, ValueError, TypeError):
         return hi
+
+
+# --------------------------------------------------------------------------- input representations
+REPRESENTATIONS = ("c", "fortran", "strided", "readonly", "c", "int", "list")
+
+
+def represent(a, kind):
+    """The same array VALUE in a different in-memory representation.  The properties quantify over values; a
+    library function must not care whether an array is C- or Fortran-ordered, a strided view into a larger
+    array, read-only, integer-typed (when every entry is integral) or a nested list.  Kinds that do not apply
+    to the value (\"int\" for non-integral entries) fall back to the plain C-ordered float64 array."""
+    import numpy as np
+
+    x = np.array(a, dtype=float)
+    if kind == "fortran" and x.ndim >= 2:
+        return np.asfortranarray(x)
+    if kind == "strided" and x.ndim >= 1:
+        big = np.zeros(tuple(2 * n for n in x.shape), dtype=float)
+        sl = tuple(slice(None, None, 2) for _ in x.shape)
+        big[sl] = x
+        return big[sl]
+    if kind == "readonly":
+        x.setflags(write=False)
+        return x
+    if kind == "int" and x.size and np.all(np.isfinite(x)) and np.all(x == np.round(x)) and np.abs(x).max() < 2**31:
+        return x.astype(np.int64)
+    if kind == "list":
+        return x.tolist()
+    return x
+
+
+def representation_of(index):
+    return REPRESENTATIONS[index % len(REPRESENTATIONS)]
